@@ -11,6 +11,7 @@ import (
 	"hash/fnv"
 	"os"
 	"sort"
+	"strings"
 	"time"
 )
 
@@ -155,6 +156,11 @@ func WriteEvidence(path string, e *Evidence) error {
 // SortViolations orders violations deterministically.
 func SortViolations(vs []Violation) {
 	sort.SliceStable(vs, func(i, j int) bool {
+		// findings of the schedule-controlled stages first: they replay exactly
+		ri, rj := strings.Contains(vs[i].Signature, "not replay-exact"), strings.Contains(vs[j].Signature, "not replay-exact")
+		if ri != rj {
+			return rj
+		}
 		if vs[i].Signature != vs[j].Signature {
 			return vs[i].Signature < vs[j].Signature
 		}
